@@ -1085,9 +1085,10 @@ fn gen_cti(r: &mut StdRng, sys: &Sys, sh: &Shadow) -> Value {
         v
     };
     let roll = r.gen_range(0..100);
+    let fresh_topic = sys.u1.iter().any(|t| !sh.topics.contains(t));
     let want_topics = have_t.len() < 2 || (sys.regime == "topics" && r.gen_bool(0.6));
     if sh.grow {
-        if roll < 30 || want_topics {
+        if fresh_topic && (roll < if sys.regime == "issuers" { 8 } else { 30 } || want_topics) {
             mk("add_topic", &pick_where(r, &sys.u1, &|t| !sh.topics.contains(t)), "none", "none", &[], 0)
         } else if roll < 72 {
             mk("add_issuer", &pick_where(r, &sys.u2, &|i| !sh.issuers.contains_key(i)), "none", "none", &topic_list(r), 0)
@@ -1312,6 +1313,65 @@ fn gen_irs(r: &mut StdRng, sys: &Sys, sh: &Shadow) -> Value {
     }
 }
 
+/// scripted additions that bring a registry close to the limit its regime is about
+/// (the random phase that follows then crosses the limit in both directions)
+fn prefill(fl: &str, regime: &str, r: &mut StdRng) -> usize {
+    match (fl, regime) {
+        ("keys", "rpk") => MAX_REGISTRIES_PER_KEY as usize - 2,
+        ("keys", "kpt") => MAX_KEYS_PER_TOPIC as usize - 2,
+        ("cti", "topics") => MAX_CLAIM_TOPICS as usize - 2,
+        ("cti", "issuers") => MAX_ISSUERS as usize + 1, // three topics first
+        ("modules", "cap") => MAX_MODULES as usize - 2,
+        // just below / just above the first bucket boundary, or just below the second one
+        ("docs", "bucket") => {
+            let bs = docs_lib::BUCKET_SIZE as usize;
+            *pick(r, &[bs - 2, bs + 2, bs + 2, 2 * bs - 1])
+        }
+        _ => 0,
+    }
+}
+
+fn fill_op(r: &mut StdRng, sys: &Sys, sh: &Shadow, ts: i64) -> Value {
+    match (sys.fl.as_str(), sys.regime.as_str()) {
+        ("keys", "rpk") => {
+            for t in &sys.u2 {
+                for g in &sys.u3 {
+                    if r.gen_bool(0.5) && !sh.triples.contains(&("k1".to_string(), t.clone(), g.clone())) {
+                        return mk("allow", "k1", t, g, &[], 0);
+                    }
+                }
+            }
+            gen_keys(r, sys, sh)
+        }
+        ("keys", "kpt") => {
+            let k = pick_where(r, &sys.u1, &|k| !sh.triples.iter().any(|x| x.0 == *k && x.1 == "t1"));
+            mk("allow", &k, "t1", &pick_s(r, &sys.u3), &[], 0)
+        }
+        ("cti", "topics") => mk("add_topic", &pick_where(r, &sys.u1, &|t| !sh.topics.contains(t)), "none", "none", &[], 0),
+        ("cti", "issuers") => {
+            if sh.topics.len() < 3 {
+                mk("add_topic", &pick_where(r, &sys.u1, &|t| !sh.topics.contains(t)), "none", "none", &[], 0)
+            } else {
+                let have: Vec<String> = sh.topics.iter().cloned().collect();
+                let mut ts_: Vec<String> = vec![pick_s(r, &have)];
+                let t2 = pick_s(r, &have);
+                if !ts_.contains(&t2) {
+                    ts_.push(t2);
+                }
+                mk("add_issuer", &pick_where(r, &sys.u2, &|i| !sh.issuers.contains_key(i)), "none", "none", &ts_, 0)
+            }
+        }
+        ("modules", _) => {
+            let m = pick_where(r, &sys.u2, &|m| !sh.mods.contains(&("Created".to_string(), m.clone())));
+            mk("add_module", "Created", &m, "none", &[], 0)
+        }
+        _ => {
+            let from = r.gen_range(0..sys.u1.len());
+            mk("set_doc", &fresh_of(sys, sh, 1, from)[0], "u1", "h1", &[], ts)
+        }
+    }
+}
+
 /// "none" is the specification's marker for "no element": a generator that found nothing to pick
 /// falls back to the first element of the universe instead of creating an element of that name
 fn denone(op: &mut Value, sys: &Sys) {
@@ -1338,14 +1398,11 @@ const CYCLE: [(&str, &str); 15] = [
     ("modules", "cap"), ("binder", "cap"), ("docs", "cap"),
 ];
 
-/// calls per run: at least `len`, and enough to reach the limit the regime is about and come back
+/// calls of the random phase of a run: at least `len`, and enough to cross the limit the regime is about
+/// a few times in both directions
 fn run_len(fl: &str, regime: &str, len: usize) -> usize {
     let need = match (fl, regime) {
-        ("keys", "rpk") => 3 * MAX_REGISTRIES_PER_KEY as usize,
-        ("keys", "kpt") => 2 * MAX_KEYS_PER_TOPIC as usize,
-        ("cti", "topics") => 3 * MAX_CLAIM_TOPICS as usize,
-        ("cti", "issuers") => 2 * MAX_ISSUERS as usize + 20,
-        ("modules", "cap") => 3 * MAX_MODULES as usize,
+        ("keys", "rpk") | ("keys", "kpt") | ("cti", "topics") | ("cti", "issuers") | ("modules", "cap") => 50,
         ("binder", "bucket") | ("docs", "bucket") => 70,
         ("irs", _) => 70,
         (_, "cap") => usize::MAX, // scripted
@@ -1359,16 +1416,19 @@ fn drive_run(r: &mut StdRng, t: &mut Trace, fl: &str, regime: &str, len: usize) 
     t.reset(sys.reset_event());
     let mut sh = Shadow { grow: true, ..Default::default() };
     let mut stage = 0usize;
-    let total = run_len(fl, regime, len);
+    let fill = prefill(fl, regime, r);
+    let total = run_len(fl, regime, len).saturating_add(fill);
     let mut i = 0usize;
     while i < total {
         i += 1;
         let op = match (fl, regime) {
+            _ if i <= fill => Some(fill_op(r, &sys, &sh, (i % 1000) as i64)),
             ("binder", "cap") => script_binder_cap(r, &sys, &sh, &mut stage),
             ("docs", "cap") => script_docs_cap(r, &sys, &sh, &mut stage, (i % 1000) as i64),
             // the batch limit from both sides, on an empty registry
             ("binder", "bucket") if i <= 2 => {
-                let k = 2 * binder_lib::BUCKET_SIZE as usize + if i == 1 { 1 } else { 0 };
+                let bs = binder_lib::BUCKET_SIZE as usize;
+                let k = if i == 1 { 2 * bs + 1 } else { *pick(r, &[2 * bs, 2 * bs, 2 * bs - 1, bs + 1, bs - 1]) };
                 Some(mk("bind_batch", "none", "none", "none", &fresh_of(&sys, &sh, k, 0), 0))
             }
             ("keys", _) => Some(gen_keys(r, &sys, &sh)),
